@@ -56,7 +56,15 @@ def run_one(chk, sseed, nrepos=1, directed=None):
                 versions.append(nv)
             else:
                 kind = "evolve"
-                versions.append([common.evolve(rng, r) for r in versions[-1]])
+                nv = [common.evolve(rng, r) for r in versions[-1]]
+                # a new state is dated after EVERY earlier state: after a rollback "the last date + 1 day" is the date of a state
+                # that already existed, and an index that happens to have the same size in both would be indistinguishable by
+                # size and date (1 of 781 worlds of thorough sweep #3)
+                newest = max(cs.get("date", 1_000_000_000) for v in versions for r in v for cs in r["codenames"].values())
+                for r in nv:
+                    for cs in r["codenames"].values():
+                        cs["date"] = max(cs.get("date", 0), newest + 86400)
+                versions.append(nv)
             kinds.append(kind)
         if directed == "removal-only":
             # the last update only withdraws packages: the final run transfers no pool file at all, and still has to clean
